@@ -23,6 +23,7 @@ type SpecEnv struct {
 	hdr      *SpecEnv
 	bound    map[string]bool // names bound by quantifiers (shadow locals)
 	usedHeaps *[]string // when translating a spec function body: heaps read
+	atlockState *State  // what atlock() denotes when a callee's postcondition is assumed at a call site
 }
 
 type specErr string
@@ -638,6 +639,18 @@ func (env *SpecEnv) call(x ECall) SpecVal {
 		}
 		n := *env
 		n.cur = env.old
+		return n.tr(x.Args[0])
+	case "atlock":
+		// the state right after the function acquired its monitor lock (what the other threads left behind)
+		n := *env
+		if env.atlockState != nil {
+			n.cur = env.atlockState
+			return n.tr(x.Args[0])
+		}
+		if g.lockState == nil {
+			env.fail("atlock(): the function has not acquired a monitor lock before this point")
+		}
+		n.cur = g.lockState
 		return n.tr(x.Args[0])
 	case "hdr":
 		if env.hdr == nil {
